@@ -109,10 +109,10 @@ CHECKS = {
              "{'{','}','a',' '} up to length 7 (quick) / 9 (thorough) x argument counts 0..k+1 x a rotating argument "
              "pool containing '{}', '{', '}{' x {operator%, args(...)}; str(), conversion and operator<< must agree; "
              "wrong arity must raise on all three; random typed arguments; messages of raised exceptions (1-6 mixed "
-             "arguments, custom exception type, format object) must be the concatenation.",
+             "arguments, custom exception type, format object) must be the concatenation. A concurrent phase (harness/mtindep.cpp) repeats a fixed job list from 2-16 threads on thread-private objects: results must equal the serial ones and ThreadSanitizer must stay silent (hidden shared state).",
         design_ref="DESIGN.md section 4, C08",
         note="char / wchar_t formatters other than char are not driven; double arguments use values whose %g text is exact.",
-        technique="reference-function differential monitoring, exhaustive small-scope enumeration under ASan/UBSan",
+        technique="reference-function differential monitoring, exhaustive small-scope enumeration under ASan/UBSan + ThreadSanitizer on concurrent independent use",
     ),
     "C09": dict(
         category="exploration", engine="mtlog",
@@ -176,11 +176,11 @@ CHECKS = {
         text="Differential runtime monitor: every 2nd..6th parse() on a long-lived parser is compared, "
              "result for result, with a freshly built identical parser on the same vector and environment, "
              "under gcc ASan+UBSan. Sampled sequences (10k quick / 200k thorough) over a fixed declaration "
-             "family plus random declarations; all four previous-outcome -> this-outcome cells are required.",
+             "family plus random declarations; all four previous-outcome -> this-outcome cells are required. A concurrent phase (harness/mtindep.cpp) repeats a fixed job list from 2-16 threads on thread-private objects: results must equal the serial ones and ThreadSanitizer must stay silent (hidden shared state).",
         design_ref="DESIGN.md section 4, C14",
         note="Trusts the driver's rendering of the arguments object and that a freshly constructed parser is "
              "the reference; sequences are sampled, not exhaustive.",
-        technique="differential runtime monitoring (long-lived vs fresh parser) under ASan/UBSan",
+        technique="differential runtime monitoring (long-lived vs fresh parser) under ASan/UBSan + ThreadSanitizer on concurrent independent use",
     ),
     "C15": dict(
         category="exploration",
@@ -188,11 +188,11 @@ CHECKS = {
              "with prior content, std::cout with a non-seekable buffer via explicit and default argument, a real "
              "pipe); the texts must be byte-identical, a structural parser must find every option in the synopsis and "
              "exactly one entry per option in group-creation / declaration order with every description, env-hint and "
-             "default word in order, and every line over 80 columns must contain an unbreakable unit that cannot fit.",
+             "default word in order, and every line over 80 columns must contain an unbreakable unit that cannot fit. A concurrent phase (harness/mtindep.cpp) repeats a fixed job list from 2-16 threads on thread-private objects: results must equal the serial ones and ThreadSanitizer must stay silent (hidden shared state).",
         design_ref="DESIGN.md section 4, C15",
         note="Wrap positions are not prescribed; about / group descriptions are kept <= 60 chars because they are "
              "printed unwrapped; ASCII texts only.",
-        technique="output monitor: cross-stream differential + structural text oracle under ASan/UBSan",
+        technique="output monitor: cross-stream differential + structural text oracle under ASan/UBSan + ThreadSanitizer on concurrent independent use",
     ),
     "C16": dict(
         category="exploration", engine="hashgrid",
@@ -200,10 +200,10 @@ CHECKS = {
              "variants, nested tuple<variant,pair>, shared_ptr, unique_ptr; for all pairs x == y implies equal hashes, "
              "the six operators equal a hand-written lexicographic comparison, trichotomy; for all triples "
              "transitivity; per-position and swap sensitivity of the combined hash (collision rate <= 1 %); "
-             "unordered_set/map find every inserted key and only those. ~600k pairs / 9M triples quick.",
+             "unordered_set/map find every inserted key and only those. ~600k pairs / 9M triples quick. A concurrent phase (harness/mtindep.cpp) repeats a fixed job list from 2-16 threads on thread-private objects: results must equal the serial ones and ThreadSanitizer must stay silent (hidden shared state).",
         design_ref="DESIGN.md section 4, C16",
         note="Grids are fixed (deterministic); the 1 % collision bound has two orders of magnitude of margin (0 measured).",
-        technique="exhaustive grid relation checking (in-process monitor) under ASan/UBSan",
+        technique="exhaustive grid relation checking (in-process monitor) under ASan/UBSan + ThreadSanitizer on concurrent independent use",
     ),
     "C17": dict(
         category="exploration", engine="strdrv",
@@ -211,10 +211,10 @@ CHECKS = {
              "non-empty elements) and the three split laws, evaluated on exhaustive strings over {a,b,blank} up to "
              "length 6 (quick) / 8 (thorough) x separators/patterns up to length 3 (empty included) x replacements up "
              "to length 2, all lists of 0-4 elements over {'', 'a', 'a ', ' ', 'ab'} x 6 infixes, plus random longer "
-             "inputs; 'returns for every input' is decided by a CPU-time budget with one re-run, under ASan/UBSan.",
+             "inputs; 'returns for every input' is decided by a CPU-time budget with one re-run, under ASan/UBSan. A concurrent phase (harness/mtindep.cpp) repeats a fixed job list from 2-16 threads on thread-private objects: results must equal the serial ones and ThreadSanitizer must stay silent (hidden shared state).",
         design_ref="DESIGN.md section 4, C17",
         note="The empty pattern is judged with Python's semantics (replacement before every character and at the end).",
-        technique="reference-function differential monitoring + CPU-time watchdog, exhaustive small-scope enumeration",
+        technique="reference-function differential monitoring + CPU-time watchdog, exhaustive small-scope enumeration + ThreadSanitizer on concurrent independent use",
     ),
     "C18": dict(
         category="exploration", engine="ownhist",
@@ -223,11 +223,11 @@ CHECKS = {
              "and leaks are seen at the event); a model of slot -> object says after every operation which objects "
              "must be destroyed by now (exactly when reset, overwritten or the last owner dies). Exhaustive histories "
              "over 2 slots + a std::vector (reallocation) to depth 4/5, random over 4 slots; optionals: values live at "
-             "distinct addresses, assign-empty empties, reading empty raises. ASan+LSan watch.",
+             "distinct addresses, assign-empty empties, reading empty raises. ASan+LSan watch. A concurrent phase (harness/mtindep.cpp) repeats a fixed job list from 2-16 threads on thread-private objects: results must equal the serial ones and ThreadSanitizer must stay silent (hidden shared state).",
         design_ref="DESIGN.md section 4, C18",
         note="After a self-move the pointer may be empty or keep its object (both accepted, but never a leak or a "
              "double destruction).",
-        technique="history monitor with instance-registry payload types under ASan/LSan",
+        technique="history monitor with instance-registry payload types under ASan/LSan + ThreadSanitizer on concurrent independent use",
     ),
     "C19": dict(
         category="exploration", engine="envdl",
@@ -301,6 +301,9 @@ def main():
              "kind_free_text": "env/dl history driver with ld --wrap'ped loader calls"},
             {"name": "iteradapt", "path": "harness/iteradapt.cpp", "serves_properties": ["C20"],
              "kind_free_text": "enumerate/reverse over the container-kind x value-category x length product"},
+            {"name": "mtindep", "path": "harness/mtindep.cpp", "serves_properties": ["C08", "C14", "C15", "C16", "C17", "C18"],
+             "kind_free_text": "concurrent independent use: threads work on their own objects; serial-vs-concurrent "
+                               "differential oracle plus ThreadSanitizer (gcc, clang), ASan and plain builds"},
             {"name": "strdrv", "path": "harness/strdrv.cpp", "serves_properties": ["C08", "C17"],
              "kind_free_text": "line-per-operation driver for nitro::lang string functions and nitro::format, batched "
                                "with per-operation re-run for crash/hang attribution; Python oracles"},
